@@ -208,3 +208,92 @@ func writtenInPlace(p *Prog, v ssa.Value, depth int, seen map[ssa.Value]bool) ss
 	}
 	return nil
 }
+
+// checkCommitAppliesEveryOp: the in-process engine's Commit walks the operations staged by the batch and applies each
+// to the skip list: every iteration of that loop passes a Remove or a Set before the next operation is fetched. An
+// iteration that only arms the expiry timer (or does nothing) acknowledges a write that was never stored.
+func checkCommitAppliesEveryOp(p *Prog, r *Roles, res *Result, rule string) {
+	commit := p.implIn(r.BWCommit, "pkg/storage/memkv")
+	if commit == nil {
+		res.und(rule, "memkv batch: Commit", "-", "not found")
+		return
+	}
+	n := 0
+	for _, b := range commit.Blocks {
+		for _, ins := range b.Instrs {
+			nx, ok := ins.(*ssa.Next)
+			if !ok {
+				continue
+			}
+			rg, ok := nx.Iter.(*ssa.Range)
+			if !ok {
+				continue
+			}
+			if _, isMap := rg.X.Type().Underlying().(*types.Map); !isMap {
+				continue
+			}
+			n++
+			construct := fmt.Sprintf("%s: every staged operation is applied to the skip list (loop #%d)", funcName(commit), n)
+			pa := posOf(nx)
+			skipped, _ := searchFrom(pa.b, pa.i+1, searchOpts{
+				stop: func(i ssa.Instruction) bool {
+					c, ok := i.(ssa.CallInstruction)
+					return ok && isEngineCall(c, "Remove", "Set", "RemoveElement")
+				},
+				bad: func(i ssa.Instruction) bool { return i == ssa.Instruction(nx) },
+			})
+			if skipped != nil {
+				res.bad(rule, construct, p.pos(nx.Pos()), "an iteration of the apply loop can reach the next staged operation without a Remove or Set on the skip list: the batch is acknowledged although one of its writes (e.g. every write that carries a ttl) was never stored")
+			} else {
+				res.ok(rule, construct, p.pos(nx.Pos()), "each iteration passes skl.Remove or skl.Set")
+			}
+		}
+	}
+	if n == 0 {
+		res.und(rule, funcName(commit)+": apply loop", p.pos(commit.Pos()), "no loop over the staged operations found")
+	}
+}
+
+// checkAdaptersReportCancellation: an adapter that looks at its context (ctx.Err()) and finds it done has to say so:
+// the function that makes the observation returns an error on that path. Cutting a scan short and ending it like a
+// complete one (io.EOF from Next, a nil error from Iter) makes the layers above take a prefix of the interval for all
+// of it.
+func checkAdaptersReportCancellation(p *Prog, res *Result, rule string) {
+	n := 0
+	var fs []*ssa.Function
+	for _, f := range p.AllFuncs {
+		if f.Pkg == nil || f.Blocks == nil || f.Synthetic != "" || !strings.HasPrefix(f.Pkg.Pkg.Path(), modPath+"/pkg/storage/") {
+			continue
+		}
+		fs = append(fs, f)
+	}
+	sort.Slice(fs, func(i, j int) bool { return funcName(fs[i]) < funcName(fs[j]) })
+	for _, f := range fs {
+		k := 0
+		for _, c := range callsIn(f) {
+			if !c.Common().IsInvoke() || c.Common().Method.Name() != "Err" || c.Common().Method.Pkg() == nil || c.Common().Method.Pkg().Path() != "context" {
+				continue
+			}
+			call, ok := c.(*ssa.Call)
+			if !ok {
+				continue
+			}
+			k++
+			n++
+			construct := fmt.Sprintf("%s: a done context (ctx.Err() #%d) is reported as an error", funcName(f), k)
+			ei := errorResultIndex(f.Signature)
+			if ei < 0 {
+				res.bad(rule, construct, p.pos(call.Pos()), "the function looks at ctx.Err() but has no error result to report it with: a cancelled or expired context silently shortens what it does (an iterator buffers a prefix of the interval and then ends like a complete scan)")
+				continue
+			}
+			if losses := errLosses(p, f, call, call); len(losses) > 0 {
+				res.bad(rule, construct, p.pos(losses[0].ret.Pos()), "on a path where ctx.Err() is non-nil the function returns without an error derived from it")
+			} else {
+				res.ok(rule, construct, p.pos(call.Pos()), "returned on every path on which it may be non-nil")
+			}
+		}
+	}
+	if n == 0 {
+		res.ok(rule, "adapters: no function cuts its work short on ctx.Err()", "-", "no adapter function inspects ctx.Err()")
+	}
+}
